@@ -97,6 +97,19 @@ Theorem C09_extensions :
 Proof. exact extensions_agree. Qed.
 Print Assumptions C09_extensions.
 
+(* hence, with the same extension function on both sides (after the repair), a path
+   is accepted by is_source_file exactly when FileLanguage knows a language for it *)
+Theorem C09_source_iff_language : forall p, has_language p = is_source_file p.
+Proof. exact has_language_eq. Qed.
+Print Assumptions C09_source_iff_language.
+
+(* before the repair is_source_file used pathlib's suffix: "..c" was a source file
+   without a language (and the tools aborted on it) *)
+Theorem C09_suffix_refuted :
+  exists p, is_source_file_before_fix p = true /\ has_language p = false.
+Proof. exists ["r"; "..c"]. vm_compute. split; reflexivity. Qed.
+Print Assumptions C09_suffix_refuted.
+
 (* ---- laws of the matcher (S) ---- *)
 Theorem C09_last_match_wins :
   forall ps p cs d, level (ps ++ [p]) cs d = if pat_hits d cs p then Some (negb (p_neg p)) else level ps cs d.
